@@ -107,6 +107,8 @@ pub fn panel() -> Vec<Value> {
         json!([1.0, 1, "1", [1], {"1": 1}, true, null]),
         // two operands taken from the document: containers holding the same number written differently
         json!([{"a": {"n": 1}, "b": {"n": 1.0}}, {"a": {"n": 1}, "b": {"n": 2}}, {"a": [{"n": 10}], "b": [{"n": 1e1}]}, {"a": {"n": 1, "m": [2]}, "b": {"m": [2.0], "n": 1}}, {"a": 1}]),
+        // numbers around the limits of the integer representations (2^63, 2^64) next to float-stored neighbours
+        json!([5, 1e19, 2e19, 9.5e18, 18446744073709551615u64, 9223372036854775808u64, -9223372036854775808i64, -1e19, 9223372036854775807i64, 1.8446744073709552e19]),
         // children told apart only by filters that are easily confused (see gen::alpha::CONFUSABLE)
         json!([{"a": {"b": 1}}, {"ab": 1}, {"a": {"b": 1}, "ab": 1}, {"x": 1}, {"y": 1, "z": 1}, {"y": 1}, [5, [7]], [5, 6], [0, 1, 2, 3, 4, 5, 6, 7, 8, 9, 10]]),
     ];
@@ -153,7 +155,9 @@ pub fn names_universe(pairs: bool) -> Vec<Value> {
         m3.insert(n.clone(), json!([1, {"a": 2}]));
         out.push(Value::Object(m3));
     }
-    for (a, b) in [("a b", "a  b"), (" ", "  "), ("a/b", "a\\/b"), ("/", "\\/"), ("a", "\"a\""), ("a", "'a'"), ("a\\b", "a\\\\b"), ("\\", "\\\\"), ("0", "00"), ("a", "A")] {
+    for (a, b) in [("a b", "a  b"), (" ", "  "), ("a/b", "a\\/b"), ("/", "\\/"), ("a", "\"a\""), ("a", "'a'"), ("a\\b", "a\\\\b"), ("\\", "\\\\"), ("0", "00"), ("a", "A"),
+        // a blank that follows a quote character or a backslash inside the name, against the same name without it
+        ("a\" b", "a\"b"), ("a' b", "a'b"), ("say \"hi there\"", "say \"hithere\""), ("\" \"", "\"\""), ("' '", "''"), ("a\\ b", "a\\b"), ("a \"b", "a\"b"), ("a\"\tb", "a\"b")] {
         let mut m = Map::new();
         m.insert(a.to_string(), json!(1));
         m.insert(b.to_string(), json!([2]));
@@ -169,6 +173,36 @@ pub fn names_universe(pairs: bool) -> Vec<Value> {
                     m.insert(b.clone(), json!([2]));
                     out.push(Value::Object(m));
                 }
+            }
+        }
+    }
+    out
+}
+
+/// documents deeper than a JSON text parser accepts (serde_json: 128 levels): a branching core below `depth`
+/// single-child wrappers of one kind (array, object, alternating); they can only be assembled in code
+pub fn deep_docs(thorough: bool) -> Vec<Value> {
+    let cores = [
+        json!([["a"], ["b"], [["c"], ["d"]]]),
+        json!({"x": {"p": 1, "q": [2, 3]}, "y": {"q": 4, "p": [5, {"p": 6}]}}),
+        json!([[1, [2]], {"a": [3], "b": [4]}, [5]]),
+    ];
+    let mut out = vec![];
+    for core in &cores {
+        let depths: &[usize] = if thorough { &[3, 126, 127, 128, 129, 130, 160] } else { &[127, 128, 129] };
+        for &depth in depths {
+            for kind in 0..3 {
+                let mut v = core.clone();
+                for k in 0..depth {
+                    let arr = match kind {
+                        0 => true,
+                        1 => false,
+                        _ => k % 2 == 0,
+                    };
+                    v = if arr { Value::Array(vec![v]) } else { json!({ "a": v }) };
+                }
+                // thorough: the deep part is the second child of the root, so that `$[1]..x` counts depth from there
+                out.push(if thorough { json!([0, v]) } else { v });
             }
         }
     }
